@@ -70,3 +70,215 @@ Theorem c14_single_arch_unaffected : forall by_arch, List.length by_arch <= 1 ->
   forall a U W, resolve U W (dq_for by_arch a) = resolve U W [].
 Proof. exact single_arch_lemma. Qed.
 Print Assumptions c14_single_arch_unaffected.
+
+(* ==== the wiring: build.NewMultiArch, APK.ResolveWorld, disqualifyDifference on
+   package objects, the disqualification cache (Model/MultiArch.v) =================
+
+   repos a            the index OBJECTS the APK of architecture a resolves with
+   arch_universe      what they contain, flattened (the universe of Model/Resolver.v)
+   contexts archs     one build context per distinct requested architecture
+   by_arch_of order   the ByArch map NewMultiArch hands to every APK, filled by
+                      visiting the contexts in [order] (Go map iteration: ANY order);
+                      its key function byarch_key is Generated.C14Wiring: the
+                      expression in the source, evaluated
+   wired_dq           the part of disqualifyDifference's result that names the
+                      resolver's own package objects = the set its resolution starts from
+   resolve_world      APK.ResolveWorld (sibling loop + GetPackagesWithDependencies) *)
+From Coq Require Import Permutation.
+From Apko Require Import Generated.C14Wiring Model.MultiArch Proofs.MultiArchProofs Proofs.MultiArchWitness.
+
+(* what the hand-written model assumes about the source it transcribes; the
+   translator refuses (broken tie) when a shape is not recognised, this theorem
+   fixes the recognised shapes to the ones modelled *)
+Theorem c14_source_shape :
+  wiring_shape =
+  [("contexts-keyed-by", "the architecture");
+   ("context-options", "clone of the shared options + WithArch(arch)");
+   ("byarch-assigned", "the one map, to every context");
+   ("resolveworld-ranges-over", "ByArch of the receiver");
+   ("resolveworld-own-architecture", "the index objects the resolver was built from");
+   ("resolveworld-siblings", "GetRepositoryIndexes of the sibling, under the ByArch key");
+   ("resolveworld-passes", "the collected map as allArchs");
+   ("resolve-and-calculate-world", "through ResolveWorld");
+   ("initial-set", "globalDisqualifyCache.Get of the allArchs parameter");
+   ("dq-one-architecture", "returns the empty set");
+   ("dq-loops", "all ordered pairs of distinct architectures");
+   ("dq-compares", "Name+Version");
+   ("dq-marks", "every package of the architecture's own resolver (nameMap), by package object");
+   ("dq-cache-key", "concatenation of the map's values, sorted by Name(), compared by index object");
+   ("dq-cache-hit", "a clone of the stored set");
+   ("dq-cache-miss", "disqualifyDifference of the call's own map, stored under the key")].
+Proof. reflexivity. Qed.
+Print Assumptions c14_source_shape.
+
+(* (d) distinct apko architectures have distinct ByArch keys: a finite
+   enumeration over types.AllArchs (9 architectures, 81 pairs, read from the
+   source), lifted with forallb_forall *)
+Theorem c14_byarch_keys_distinct : forall a b,
+  In a apko_archs -> In b apko_archs -> byarch_key a = byarch_key b -> a = b.
+Proof. exact apko_keys_distinct. Qed.
+Print Assumptions c14_byarch_keys_distinct.
+
+(* ... so no sibling is dropped from ByArch, whatever the order in which the
+   contexts are visited: one entry per architecture, each under its own key *)
+Theorem c14_no_sibling_dropped : forall archs order,
+  incl archs apko_archs -> Permutation order (contexts archs) ->
+  List.length (by_arch_of order) = List.length (contexts archs) /\
+  (forall a, In a archs -> alookup (byarch_key a) (by_arch_of order) = Some a) /\
+  (forall k a, In (k, a) (by_arch_of order) -> In a archs /\ k = byarch_key a).
+Proof. exact no_sibling_dropped_apko. Qed.
+Print Assumptions c14_no_sibling_dropped.
+Example c14_keys_example :
+  by_arch_of ["arm/v7"; "amd64"; "arm/v6"] = [("arm/v7", "arm/v7"); ("amd64", "amd64"); ("arm/v6", "arm/v6")] /\
+  contexts ["amd64"; "arm/v6"; "amd64"; "arm/v7"] = ["arm/v6"; "amd64"; "arm/v7"].
+Proof. vm_compute. split; reflexivity. Qed.
+(* a key that identifies the two 32-bit ARM variants loses one of them, which
+   then resolves unfiltered (seeded change C14-3) *)
+Example c14_keys_hypothesis_matters :
+  by_arch_with oci_key ["amd64"; "arm/v6"; "arm/v7"] = [("amd64", "amd64"); ("arm", "arm/v7")].
+Proof. vm_compute. reflexivity. Qed.
+
+(* (a) for EVERY list of requested architectures (any number, duplicates allowed),
+   every order in which NewMultiArch visits its contexts and every content of the
+   indexes: package i of architecture a's universe is in the set a's resolution
+   starts from iff SOME other requested architecture lacks exactly its
+   name+version.  Both directions; the right-hand side mentions neither the
+   order nor the keys.  Hypotheses: the keys of the requested architectures are
+   distinct (c14_byarch_keys_distinct gives that for apko's architectures) and
+   every architecture's index objects are its own (repos_separate). *)
+Theorem c14_dq_symmetric_complete : forall archs order repos a i,
+  Permutation order (contexts archs) -> NoDup (List.map byarch_key (contexts archs)) ->
+  repos_separate repos archs -> In a archs ->
+  (In i (wired_dq repos (by_arch_of order) a (repos a)) <->
+   i < List.length (arch_universe repos a) /\
+   exists b, In b archs /\ b <> a /\ ~ Available (arch_universe repos b) (nth i (arch_universe repos a) dummy_pkg)).
+Proof. exact build_dq_symmetric_complete. Qed.
+Print Assumptions c14_dq_symmetric_complete.
+Example c14_dq_symmetric_example :
+  let repos := repos_of [("amd64", [NI 0 "" [mp "lib" "1" [] [] []; mp "lib" "2" [] [] []]]);
+                         ("arm/v6", [NI 1 "" [mp "lib" "1" [] [] []; mp "lib" "2" [] [] []]]);
+                         ("arm/v7", [NI 2 "" [mp "lib" "1" [] [] []]])] in
+  wired_dq repos (by_arch_of ["amd64"; "arm/v6"; "arm/v7"]) "amd64" (repos "amd64") = [1] /\
+  wired_dq repos (by_arch_of ["arm/v7"; "arm/v6"; "amd64"]) "arm/v6" (repos "arm/v6") = [1] /\
+  wired_dq repos (by_arch_of ["arm/v6"; "amd64"; "arm/v7"]) "arm/v7" (repos "arm/v7") = [].
+Proof. vm_compute. repeat split; reflexivity. Qed.
+(* the hypothesis "its own objects" is what fix f441d90 established *)
+Example c14_own_objects_matter :
+  let own := [NI 0 "" [mp "lib" "1" [] [] []; mp "lib" "2" [] [] []]] in
+  let reloaded := [NI 7 "" [mp "lib" "1" [] [] []; mp "lib" "2" [] [] []]] in
+  let load := repos_of [("amd64", reloaded); ("arm64", [NI 1 "" [mp "lib" "1" [] [] []]])] in
+  wired_dq load (by_arch_of ["amd64"; "arm64"]) "amd64" own = [1] /\
+  own_dq own (dq_objs (collect_all_archs load "amd64" reloaded (by_arch_of ["amd64"; "arm64"]))) = [].
+Proof. exact own_objects_matter. Qed.
+
+(* (b) every member of a successful per-architecture resolution that is not an
+   install_if package is available, at that version, on EVERY requested
+   architecture *)
+Theorem c14_filtered_members_multi : forall archs order repos world a S j,
+  Permutation order (contexts archs) -> NoDup (List.map byarch_key (contexts archs)) ->
+  repos_separate repos archs -> In a archs ->
+  snd (resolve_world [] repos (by_arch_of order) a (repos a) world) = Ok S -> In j S ->
+  p_install_if (nth j (arch_universe repos a) dummy_pkg) = [] ->
+  forall b, In b archs -> Available (arch_universe repos b) (nth j (arch_universe repos a) dummy_pkg).
+Proof. exact build_filtered_members. Qed.
+Print Assumptions c14_filtered_members_multi.
+Example c14_filtered_members_multi_example :
+  let repos := repos_of [("amd64", [NI 0 "" [mp "app" "1" ["lib"] [] []; mp "lib" "1" [] [] []; mp "lib" "2" [] [] []]]);
+                         ("arm64", [NI 1 "" [mp "app" "1" ["lib"] [] []; mp "lib" "1" [] [] []]])] in
+  snd (resolve_world [] repos (by_arch_of ["amd64"; "arm64"]) "amd64" (repos "amd64") ["app"]) = Ok [1; 0] /\
+  snd (resolve_world [] repos (by_arch_of ["amd64"]) "amd64" (repos "amd64") ["app"]) = Ok [2; 0].
+Proof. vm_compute. split; reflexivity. Qed.
+
+(* REFUTED without the install_if proviso: C14-F1 seen through NewMultiArch +
+   ResolveWorld (amd64: [w->a, a, a-x(install_if a)], arm64: [w->a, a]) *)
+Theorem c14_filtered_members_multi_refuted :
+  exists archs order repos world a S j b,
+    Permutation order (contexts archs) /\ NoDup (List.map byarch_key (contexts archs)) /\
+    repos_separate repos archs /\ In a archs /\ In b archs /\
+    snd (resolve_world [] repos (by_arch_of order) a (repos a) world) = Ok S /\ In j S /\
+    ~ Available (arch_universe repos b) (nth j (arch_universe repos a) dummy_pkg) /\
+    In "foreign-version/install-if-member"
+       (foreign_check [arch_universe repos b] (List.map (fun j => nth j (arch_universe repos a) dummy_pkg) S)).
+Proof. exact filtered_members_multi_refuted_lemma. Qed.
+Print Assumptions c14_filtered_members_multi_refuted.
+
+(* (c) REFUTED: "a name selected on two architectures has the same version on
+   both" fails even when both architectures offer exactly the same packages
+   with the same metadata: amd64 lists lib-1.0-r0 before lib-1.0, arm64 the
+   other way round; the two versions compare equal, bestPackage keeps the first
+   of equally good candidates, so amd64 installs lib-1.0-r0 and arm64 lib-1.0.
+   No version is missing anywhere (the property's own statement holds); the
+   builds disagree nevertheless.  Replayed on the real code (multiarch corpus). *)
+Theorem c14_same_world_same_versions_refuted :
+  exists archs order repos world a b Sa Sb ja jb,
+    Permutation order (contexts archs) /\ NoDup (List.map byarch_key (contexts archs)) /\
+    repos_separate repos archs /\ In a archs /\ In b archs /\
+    same_offer (arch_universe repos a) (arch_universe repos b) /\
+    snd (resolve_world [] repos (by_arch_of order) a (repos a) world) = Ok Sa /\
+    snd (resolve_world [] repos (by_arch_of order) b (repos b) world) = Ok Sb /\
+    In ja Sa /\ In jb Sb /\
+    p_name (nth ja (arch_universe repos a) dummy_pkg) = p_name (nth jb (arch_universe repos b) dummy_pkg) /\
+    p_version (nth ja (arch_universe repos a) dummy_pkg) <> p_version (nth jb (arch_universe repos b) dummy_pkg).
+Proof. exact same_versions_refuted_lemma. Qed.
+Print Assumptions c14_same_world_same_versions_refuted.
+
+(* (c) PARTIAL — what does hold: the two versions of a name selected on two
+   architectures (neither package an install_if package) BOTH exist on every
+   requested architecture, and they coincide wherever one of the two
+   architectures offers the name in a single version.  Missing: equality in
+   general — it fails on versions that compare equal (above), on repositories
+   pinned differently and on per-architecture dependency metadata. *)
+Theorem c14_same_world_same_versions_partial : forall archs order repos world a b Sa Sb ja jb,
+  Permutation order (contexts archs) -> NoDup (List.map byarch_key (contexts archs)) ->
+  repos_separate repos archs -> In a archs -> In b archs ->
+  snd (resolve_world [] repos (by_arch_of order) a (repos a) world) = Ok Sa ->
+  snd (resolve_world [] repos (by_arch_of order) b (repos b) world) = Ok Sb ->
+  In ja Sa -> In jb Sb ->
+  let pa := nth ja (arch_universe repos a) dummy_pkg in
+  let pb := nth jb (arch_universe repos b) dummy_pkg in
+  p_name pa = p_name pb -> p_install_if pa = [] -> p_install_if pb = [] ->
+  (forall c, In c archs -> Available (arch_universe repos c) pa /\ Available (arch_universe repos c) pb) /\
+  ((forall q q', In q (arch_universe repos b) -> In q' (arch_universe repos b) ->
+                 p_name q = p_name q' -> p_version q = p_version q') ->
+   p_version pa = p_version pb).
+Proof. exact same_versions_partial. Qed.
+Print Assumptions c14_same_world_same_versions_partial.
+
+(* the disqualification cache seen from C14: after ANY history of calls, a call
+   whose key was used before only by the same grouping (the same map, listed in
+   any order) is handed exactly the members a fresh disqualifyDifference computes *)
+Theorem c14_cache_hit_same_grouping : forall hist aa,
+  (forall aa', In aa' hist -> dq_cache_key aa' = dq_cache_key aa -> Permutation aa' aa) ->
+  forall o, In o (snd (dq_cache_get (run_calls hist) aa)) <-> In o (dq_objs aa).
+Proof. exact cache_hit_same_grouping. Qed.
+Print Assumptions c14_cache_hit_same_grouping.
+
+(* REFUTED for another grouping with the same concatenation: this is finding
+   C08-F2 ({x:[i0], y:[i1]} then {x:[i0, i1]}), reachable through the library API *)
+Theorem c14_cache_other_grouping_refuted :
+  exists hist aa,
+    (exists aa', In aa' hist /\ dq_cache_key aa' = dq_cache_key aa /\ ~ Permutation aa' aa) /\
+    exists o, ~ (In o (snd (dq_cache_get (run_calls hist) aa)) <-> In o (dq_objs aa)).
+Proof. exact cache_other_grouping_refuted_lemma. Qed.
+Print Assumptions c14_cache_other_grouping_refuted.
+Example c14_cache_example :
+  dq_cache_key F2_multi = [0; 1] /\ dq_cache_key F2_single = [0; 1] /\
+  dq_objs F2_multi = [(0, 0)] /\ dq_objs F2_single = [] /\
+  snd (dq_cache_get (run_calls [F2_multi]) F2_single) = [(0, 0)] /\
+  snd (dq_cache_get (run_calls [F2_single]) F2_multi) = [].
+Proof. exact cache_other_grouping_values. Qed.
+
+(* the message stored with a disqualified package names an architecture that
+   lacks it (which one, when several do, follows map iteration) *)
+Theorem c14_dq_reason_names_a_lacking_sibling : forall aa a p m,
+  In m (dq_reasons aa a p) <->
+  List.length aa <> 1 /\ exists b ixs, In (b, ixs) aa /\ b <> a /\ ~ Available (flatten ixs) p /\
+                                     m = dq_message (pkg_filename p) b.
+Proof. exact dq_reasons_spec. Qed.
+Print Assumptions c14_dq_reason_names_a_lacking_sibling.
+Example c14_dq_reason_example :
+  dq_reasons [("amd64", [NI 0 "" [mp "lib" "2" [] [] []]]); ("arm/v6", [NI 1 "" []]); ("arm/v7", [NI 2 "" []])]
+             "amd64" (mp "lib" "2" [] [] []) =
+  [String.append "package " (String.append (quote "lib-2.apk") (String.append " not available for arch " (quote "arm/v6")));
+   String.append "package " (String.append (quote "lib-2.apk") (String.append " not available for arch " (quote "arm/v7")))].
+Proof. vm_compute. reflexivity. Qed.
